@@ -533,7 +533,8 @@ class Stage:
         """
         if self.master is not None and self.master.is_transcribed:
             def action(parameter, value):
-                self._method.set_value(self, self.master._method, parameter, value)      
+                self._method.set_value(self, self.master._method, parameter, value)
+                self._param_vals[parameter] = value # remembered for a later re-transcription
         else:
             def action(parameter, value):
                 if parameter not in self._meta:
